@@ -1,9 +1,11 @@
 //! entropy: Huffman (tree, decoder, contextual orders 0/1/2, interleaved x1/x2/x4/x8, parallel), rANS
 //! (N = 1/2/4/8 streams + the adaptive encoder's output), FSE, the LZ-style dictionary coders.
+use std::any::Any;
 use std::cell::RefCell;
 use std::collections::HashMap;
+use std::rc::Rc;
 
-use super::{models, selected_models, split_model, split_sel, tier_payloads, with_model, with_sel};
+use super::{limit_address_space, models, selected_models, split_model, split_sel, tier_payloads, with_model, with_sel};
 use crate::{payloads, seed, P};
 use zverif::mutate::Seed;
 use zverif::Tier;
@@ -206,10 +208,26 @@ fn ctx_model(order: u8, m: usize) -> Option<ContextualHuffmanEncoder> {
     ContextualHuffmanEncoder::deserialize(&ctx_model_bytes(order, m)?).ok()
 }
 
+thread_local! {
+    // an order-1/2 model over 256 contexts takes ~10 ms to rebuild: keep the decoders per process
+    static CTX_DECODERS: RefCell<HashMap<(u8, usize), Option<Rc<ContextualHuffmanDecoder>>>> = RefCell::new(HashMap::new());
+    static CTX_ENCODERS: RefCell<HashMap<usize, Option<Rc<ContextualHuffmanEncoder>>>> = RefCell::new(HashMap::new());
+    static RANS_DECODERS: RefCell<HashMap<(usize, usize), Option<Rc<dyn Any>>>> = RefCell::new(HashMap::new());
+}
+
+fn ctx_decoder(order: u8, m: usize) -> Option<Rc<ContextualHuffmanDecoder>> {
+    CTX_DECODERS.with(|c| c.borrow_mut().entry((order, m)).or_insert_with(|| ctx_model(order, m).map(|e| Rc::new(ContextualHuffmanDecoder::new(e)))).clone())
+}
+
+/// order-1 encoder (decode_xN lives on the encoder type)
+fn ctx_encoder1(m: usize) -> Option<Rc<ContextualHuffmanEncoder>> {
+    CTX_ENCODERS.with(|c| c.borrow_mut().entry(m).or_insert_with(|| ctx_model(1, m).map(Rc::new)).clone())
+}
+
 /// models used for the contextual seeds: small ones in quick (an order-1 model holds one 256-symbol tree
 /// per context, ~0.9 KiB each)
 fn ctx_seed_models(t: Tier) -> Vec<(u8, &'static str, Vec<u8>)> {
-    selected_models().into_iter().filter(|(_, l, _)| t == Tier::Thorough || matches!(*l, "a" | "abab" | "zeros")).collect()
+    selected_models().into_iter().filter(|(_, l, _)| matches!(*l, "abab") || (t == Tier::Thorough && matches!(*l, "a" | "zeros" | "text"))).collect()
 }
 
 fn ctx_deser_seeds(t: Tier) -> Vec<Seed> {
@@ -246,9 +264,12 @@ fn ctx_deser_decode_parse(b: &[u8], n: usize) -> bool {
     }
 }
 
-fn ctx_sel_seeds<const O: u8>(_t: Tier) -> Vec<Seed> {
+fn ctx_sel_seeds<const O: u8>(t: Tier) -> Vec<Seed> {
     let mut v = Vec::new();
     for (sel, label, p) in selected_models() {
+        if t == Tier::Quick && !matches!(label, "a" | "abab" | "text") {
+            continue;
+        }
         let Some(enc) = ctx_model(O, sel as usize) else { continue };
         if let Ok(bits) = enc.encode(&p) {
             v.push(seed(&format!("ctx[order{O},model={label}]"), with_sel(sel, &bits), p.len()));
@@ -259,8 +280,8 @@ fn ctx_sel_seeds<const O: u8>(_t: Tier) -> Vec<Seed> {
 
 fn ctx_sel_parse<const O: u8>(b: &[u8], n: usize) -> bool {
     let Some((m, rest)) = split_sel(b) else { return false };
-    let Some(enc) = ctx_model(O, m) else { return false };
-    ContextualHuffmanDecoder::new(enc).decode(rest, n).is_ok()
+    let Some(dec) = ctx_decoder(O, m) else { return false };
+    dec.decode(rest, n).is_ok()
 }
 
 fn factor(n: u8) -> InterleavingFactor {
@@ -299,7 +320,7 @@ fn xn_call(enc: &ContextualHuffmanEncoder, n: u8, data: &[u8], out: usize) -> bo
 
 fn xn_sel_parse<const N: u8>(b: &[u8], n: usize) -> bool {
     let Some((m, rest)) = split_sel(b) else { return false };
-    let Some(enc) = ctx_model(1, m) else { return false };
+    let Some(enc) = ctx_encoder1(m) else { return false };
     xn_call(&enc, N, rest, n)
 }
 
@@ -343,7 +364,7 @@ fn freqs(p: &[u8]) -> [u32; 256] {
     f
 }
 
-fn rans_seeds<V: RansVariant>(_t: Tier) -> Vec<Seed> {
+fn rans_seeds<V: RansVariant + 'static>(_t: Tier) -> Vec<Seed> {
     let mut v = Vec::new();
     for (sel, label, p) in selected_models() {
         if let Ok(enc) = Rans64Encoder::<V>::new(&freqs(&p)) {
@@ -360,10 +381,22 @@ fn rans_seeds<V: RansVariant>(_t: Tier) -> Vec<Seed> {
     v
 }
 
-fn rans_parse<V: RansVariant>(b: &[u8], n: usize) -> bool {
+/// Rans64Encoder::new normalises the frequencies in ~0.5 ms: one decoder per (N, model) and process
+fn rans_decoder<V: RansVariant + 'static>(m: usize) -> Option<Rc<Rans64Decoder<V>>> {
+    let any = RANS_DECODERS.with(|c| {
+        c.borrow_mut()
+            .entry((V::N, m))
+            .or_insert_with(|| Rans64Encoder::<V>::new(&freqs(&models()[m].1)).ok().map(|e| Rc::new(Rans64Decoder::<V>::new(&e)) as Rc<dyn Any>))
+            .clone()
+    })?;
+    any.downcast::<Rans64Decoder<V>>().ok()
+}
+
+fn rans_parse<V: RansVariant + 'static>(b: &[u8], n: usize) -> bool {
+    limit_address_space();
     let Some((m, rest)) = split_sel(b) else { return false };
-    let Ok(enc) = Rans64Encoder::<V>::new(&freqs(&models()[m].1)) else { return false };
-    Rans64Decoder::<V>::new(&enc).decode(rest, n).is_ok()
+    let Some(dec) = rans_decoder::<V>(m) else { return false };
+    dec.decode(rest, n).is_ok()
 }
 
 fn rans_adaptive_seeds(_t: Tier) -> Vec<Seed> {
@@ -404,6 +437,11 @@ fn fse_seeds(_t: Tier) -> Vec<Seed> {
     v
 }
 
+/// the thin wrappers around FseDecoder::decompress: full corpus only in thorough
+fn fse_wrapper_seeds(t: Tier) -> Vec<Seed> {
+    fse_seeds(t).into_iter().filter(|s| t == Tier::Thorough || s.label == "fse(a)" || s.label == "fse(text128)").collect()
+}
+
 fn fse_parallel_config() -> FseConfig {
     FseConfig { parallel_blocks: Some(2), block_size: 32, ..FseConfig::default() }
 }
@@ -438,11 +476,14 @@ fn dict_seeds(_t: Tier) -> Vec<Seed> {
     v
 }
 
-fn dict_compress_seeds(_t: Tier) -> Vec<Seed> {
+/// Token stream `[0][byte]` / `[1][offset u32][length u32]`.  Every mutant that enlarges a `length`
+/// field makes the decoder emit that many bytes (a genuine finding, but each such case runs until the
+/// address-space limit): quick keeps one match-bearing seed ("abab": two literals + one match).
+fn dict_compress_seeds(t: Tier) -> Vec<Seed> {
     let c = DictionaryCompressor::new(DictionaryBuilder::new().build(b"the quick brown fox"));
     let mut v = Vec::new();
     for (label, p) in payloads() {
-        if p.len() > 130 {
+        if p.len() > 130 || (t == Tier::Quick && !matches!(label, "empty" | "a" | "abab" | "text")) {
             continue;
         }
         if let Ok(b) = c.compress(&p) {
@@ -452,10 +493,10 @@ fn dict_compress_seeds(_t: Tier) -> Vec<Seed> {
     v
 }
 
-fn optdict_compress_seeds(_t: Tier) -> Vec<Seed> {
+fn optdict_compress_seeds(t: Tier) -> Vec<Seed> {
     let mut v = Vec::new();
     for (label, p) in payloads() {
-        if p.len() > 130 || p.is_empty() {
+        if p.len() > 130 || p.is_empty() || (t == Tier::Quick && !matches!(label, "a" | "abab" | "text")) {
             continue;
         }
         if let Ok(c) = OptimizedDictionaryCompressor::new(&p) {
@@ -471,8 +512,12 @@ thread_local! {
     static OPTDICT: OptimizedDictionaryCompressor = OptimizedDictionaryCompressor::new(b"the quick brown fox jumps over the lazy dog").expect("optimized dictionary compressor");
 }
 
-pub fn all(_tier: Tier) -> Vec<P> {
-    let mut v: Vec<P> = vec![
+pub fn all(tier: Tier) -> Vec<P> {
+    // `small` (all strings <= 2 bytes + all 3/4-byte strings over 8 hostile bytes, x3 for parsers with a
+    // length argument) is switched on where 1..4-byte inputs are meaningful for the format; the thin
+    // wrappers and the selector/model-prefixed parsers get it in the thorough tier only.
+    let th = tier == Tier::Thorough;
+    vec![
         P { name: "HuffmanTree::deserialize", seeds: huff_tree_seeds, parse: |b, _| HuffmanTree::deserialize(b).is_ok(), len_arg: false, small: true },
         P {
             name: "HuffmanTree::deserialize + HuffmanDecoder::decode",
@@ -498,44 +543,87 @@ pub fn all(_tier: Tier) -> Vec<P> {
                 }
             },
             len_arg: true,
-            small: true,
+            small: th,
         },
         P { name: "ParallelHuffmanDecoder<X2>::decode[valid tree]", seeds: parallel_huff_seeds::<ParallelX2Variant>, parse: parallel_huff_parse::<ParallelX2Variant>, len_arg: true, small: false },
         P { name: "ParallelHuffmanDecoder<X4>::decode[valid tree]", seeds: parallel_huff_seeds::<ParallelX4Variant>, parse: parallel_huff_parse::<ParallelX4Variant>, len_arg: true, small: false },
         P { name: "ParallelHuffmanDecoder<X8>::decode[valid tree]", seeds: parallel_huff_seeds::<ParallelX8Variant>, parse: parallel_huff_parse::<ParallelX8Variant>, len_arg: true, small: false },
-        P { name: "ContextualHuffmanEncoder::deserialize", seeds: ctx_deser_seeds, parse: |b, _| ContextualHuffmanEncoder::deserialize(b).is_ok(), len_arg: false, small: true },
+        // (needs >= 9 bytes before its first length field is complete: short strings only reach the "truncated" exits)
+        P { name: "ContextualHuffmanEncoder::deserialize", seeds: ctx_deser_seeds, parse: |b, _| ContextualHuffmanEncoder::deserialize(b).is_ok(), len_arg: false, small: th },
         P { name: "ContextualHuffmanEncoder::deserialize + ContextualHuffmanDecoder::decode[order0]", seeds: ctx_deser_decode_seeds::<0>, parse: ctx_deser_decode_parse, len_arg: true, small: false },
         P { name: "ContextualHuffmanEncoder::deserialize + ContextualHuffmanDecoder::decode[order1]", seeds: ctx_deser_decode_seeds::<1>, parse: ctx_deser_decode_parse, len_arg: true, small: false },
         P { name: "ContextualHuffmanEncoder::deserialize + ContextualHuffmanDecoder::decode[order2]", seeds: ctx_deser_decode_seeds::<2>, parse: ctx_deser_decode_parse, len_arg: true, small: false },
-        P { name: "ContextualHuffmanDecoder::decode[order0, valid model]", seeds: ctx_sel_seeds::<0>, parse: ctx_sel_parse::<0>, len_arg: true, small: false },
-        P { name: "ContextualHuffmanDecoder::decode[order1, valid model]", seeds: ctx_sel_seeds::<1>, parse: ctx_sel_parse::<1>, len_arg: true, small: false },
-        P { name: "ContextualHuffmanDecoder::decode[order2, valid model]", seeds: ctx_sel_seeds::<2>, parse: ctx_sel_parse::<2>, len_arg: true, small: false },
+        P { name: "ContextualHuffmanDecoder::decode[order0, valid model]", seeds: ctx_sel_seeds::<0>, parse: ctx_sel_parse::<0>, len_arg: true, small: th },
+        P { name: "ContextualHuffmanDecoder::decode[order1, valid model]", seeds: ctx_sel_seeds::<1>, parse: ctx_sel_parse::<1>, len_arg: true, small: th },
+        P { name: "ContextualHuffmanDecoder::decode[order2, valid model]", seeds: ctx_sel_seeds::<2>, parse: ctx_sel_parse::<2>, len_arg: true, small: th },
         P { name: "ContextualHuffmanEncoder::decode_x1[valid model]", seeds: xn_sel_seeds::<1>, parse: xn_sel_parse::<1>, len_arg: true, small: false },
         P { name: "ContextualHuffmanEncoder::decode_x2[valid model]", seeds: xn_sel_seeds::<2>, parse: xn_sel_parse::<2>, len_arg: true, small: false },
         P { name: "ContextualHuffmanEncoder::decode_x4[valid model]", seeds: xn_sel_seeds::<4>, parse: xn_sel_parse::<4>, len_arg: true, small: false },
         P { name: "ContextualHuffmanEncoder::decode_x8[valid model]", seeds: xn_sel_seeds::<8>, parse: xn_sel_parse::<8>, len_arg: true, small: false },
         P { name: "ContextualHuffmanEncoder::deserialize + decode_with_interleaving", seeds: xn_deser_seeds, parse: xn_deser_parse, len_arg: true, small: false },
         P { name: "Rans64Decoder<X1>::decode[valid model]", seeds: rans_seeds::<ParallelX1>, parse: rans_parse::<ParallelX1>, len_arg: true, small: true },
-        P { name: "Rans64Decoder<X2>::decode[valid model]", seeds: rans_seeds::<ParallelX2>, parse: rans_parse::<ParallelX2>, len_arg: true, small: true },
-        P { name: "Rans64Decoder<X4>::decode[valid model]", seeds: rans_seeds::<ParallelX4>, parse: rans_parse::<ParallelX4>, len_arg: true, small: true },
-        P { name: "Rans64Decoder<X8>::decode[valid model]", seeds: rans_seeds::<ParallelX8>, parse: rans_parse::<ParallelX8>, len_arg: true, small: true },
+        P { name: "Rans64Decoder<X2>::decode[valid model]", seeds: rans_seeds::<ParallelX2>, parse: rans_parse::<ParallelX2>, len_arg: true, small: th },
+        P { name: "Rans64Decoder<X4>::decode[valid model]", seeds: rans_seeds::<ParallelX4>, parse: rans_parse::<ParallelX4>, len_arg: true, small: th },
+        P { name: "Rans64Decoder<X8>::decode[valid model]", seeds: rans_seeds::<ParallelX8>, parse: rans_parse::<ParallelX8>, len_arg: true, small: th },
         P { name: "AdaptiveRans64Encoder::encode_adaptive -> Rans64Decoder<select_variant(len)>::decode", seeds: rans_adaptive_seeds, parse: rans_adaptive_parse, len_arg: true, small: false },
-        P { name: "FseDecoder::decompress", seeds: fse_seeds, parse: |b, _| FseDecoder::new().decompress(b).is_ok(), len_arg: false, small: true },
-        P { name: "FseDecoder::decompress[parallel blocks]", seeds: fse_parallel_seeds, parse: |b, _| FseDecoder::new().decompress(b).is_ok(), len_arg: false, small: false },
-        P { name: "fse_decompress", seeds: fse_seeds, parse: |b, _| fse_decompress(b).is_ok(), len_arg: false, small: true },
-        P { name: "fse_unzip", seeds: fse_seeds, parse: |b, _| fse_unzip(b).is_ok(), len_arg: false, small: true },
         P {
-            name: "fse_decompress_with_config[fast_compression]",
+            name: "FseDecoder::decompress",
             seeds: fse_seeds,
-            parse: |b, _| fse_decompress_with_config(b, FseConfig::fast_compression()).is_ok(),
+            parse: |b, _| {
+                limit_address_space();
+                FseDecoder::new().decompress(b).is_ok()
+            },
             len_arg: false,
             small: true,
+        },
+        P {
+            name: "FseDecoder::decompress[parallel blocks]",
+            seeds: fse_parallel_seeds,
+            parse: |b, _| {
+                limit_address_space();
+                FseDecoder::new().decompress(b).is_ok()
+            },
+            len_arg: false,
+            small: false,
+        },
+        P {
+            name: "fse_decompress",
+            seeds: fse_wrapper_seeds,
+            parse: |b, _| {
+                limit_address_space();
+                fse_decompress(b).is_ok()
+            },
+            len_arg: false,
+            small: th,
+        },
+        P {
+            name: "fse_unzip",
+            seeds: fse_wrapper_seeds,
+            parse: |b, _| {
+                limit_address_space();
+                fse_unzip(b).is_ok()
+            },
+            len_arg: false,
+            small: th,
+        },
+        P {
+            name: "fse_decompress_with_config[fast_compression]",
+            seeds: fse_wrapper_seeds,
+            parse: |b, _| {
+                limit_address_space();
+                fse_decompress_with_config(b, FseConfig::fast_compression()).is_ok()
+            },
+            len_arg: false,
+            small: th,
         },
         P { name: "entropy::dictionary::Dictionary::deserialize", seeds: dict_seeds, parse: |b, _| Dictionary::deserialize(b).is_ok(), len_arg: false, small: true },
         P {
             name: "DictionaryCompressor::decompress",
             seeds: dict_compress_seeds,
-            parse: |b, _| DictionaryCompressor::new(Dictionary::new()).decompress(b).is_ok(),
+            parse: |b, _| {
+                limit_address_space();
+                DictionaryCompressor::new(Dictionary::new()).decompress(b).is_ok()
+            },
             len_arg: false,
             small: true,
         },
@@ -543,9 +631,11 @@ pub fn all(_tier: Tier) -> Vec<P> {
             name: "Dictionary::deserialize + DictionaryCompressor::decompress",
             seeds: |t| {
                 let d = canon_dict(&DictionaryBuilder::new().max_entries(4).build(b"abababababababab").serialize());
-                dict_compress_seeds(t).into_iter().filter_map(|s| with_model(&d, &s.bytes).map(|b| seed(&s.label, b, 0))).collect()
+                // (the token stream is covered by the entry above; here it rides behind a parsed model)
+                dict_compress_seeds(t).into_iter().filter(|s| t == Tier::Thorough || s.label != "dictz(abab)").filter_map(|s| with_model(&d, &s.bytes).map(|b| seed(&s.label, b, 0))).collect()
             },
             parse: |b, _| {
+                limit_address_space();
                 let Some((model, rest)) = split_model(b) else { return false };
                 match Dictionary::deserialize(model) {
                     Ok(d) => DictionaryCompressor::new(d).decompress(rest).is_ok(),
@@ -555,8 +645,15 @@ pub fn all(_tier: Tier) -> Vec<P> {
             len_arg: false,
             small: false,
         },
-        P { name: "OptimizedDictionaryCompressor::decompress", seeds: optdict_compress_seeds, parse: |b, _| OPTDICT.with(|c| c.decompress(b).is_ok()), len_arg: false, small: true },
-    ];
-    v.shrink_to_fit();
-    v
+        P {
+            name: "OptimizedDictionaryCompressor::decompress",
+            seeds: optdict_compress_seeds,
+            parse: |b, _| {
+                limit_address_space();
+                OPTDICT.with(|c| c.decompress(b).is_ok())
+            },
+            len_arg: false,
+            small: th,
+        },
+    ]
 }
